@@ -239,7 +239,7 @@ func main() {
 			fmt.Fprintln(os.Stderr, err)
 			os.Exit(2)
 		}
-		for _, o := range append(g.stableScan(), g.immutableScan()...) {
+		for _, o := range append(append(g.stableScan(), g.immutableScan()...), g.publishedScan()...) {
 			fmt.Println(o.Res.Status, o.Name, o.Res.Output)
 		}
 	case "overlay":
